@@ -46,3 +46,48 @@ def run(ctx):
         ok = bool(rm) and bool(ev)
         ctx.ob("E.DROP-EVICTS", f.id, ok, "file removed and cached mapping evicted" if ok else
                "DROP removes the file but not the cached mapping (or vice versa)", f.loc())
+    migrate_every_row(ctx)
+
+
+def migrate_every_row(ctx):
+    """M1 MIGRATE-EVERY-ROW: ALTER TABLE DROP COLUMN rewrites the table under the new layout.  In migrate_table_drop_column, once
+    a row has been found (btree.search -> Some) every continuing path stores its re-encoded record in the batch that is written
+    back; a skipped row keeps the old layout and is read under the new schema."""
+    from paths import success_escapes, describe_path
+    from model import operand_place, CheckError
+    m = ctx.m
+    fs = [f for f in m.fns.values() if f.kind != "closure" and f.id.endswith("::migrate_table_drop_column")]
+    if len(fs) != 1:
+        raise CheckError("migrate_table_drop_column: %d candidates" % len(fs))
+    f = fs[0]
+    searches = [c for c in f.calls if c.name.startswith("btree::tree::BTree::") and c.name.rsplit("::", 1)[-1] in ("search", "get")]
+    pushes = [c for c in f.calls if c.name.rsplit("::", 1)[-1] == "push" and c.args and
+              "(std::vec::Vec<u8>, std::vec::Vec<u8>)" in (f.locals[operand_place(c.args[0])[0]] if operand_place(c.args[0]) else "")]
+    n = 0
+    for sc in searches:
+        # find the Option switch fed by this search (through `?`)
+        start = None
+        seen, st = set(), [sc.target]
+        while st and start is None:
+            b = st.pop()
+            if b is None or b in seen or len(seen) > 40:
+                continue
+            seen.add(b)
+            t = f.blocks[b]["t"]
+            if t[0] == "switch" and t[2] != "bool":
+                pl = operand_place(t[1])
+                ds = f.defs().get(pl[0], []) if pl else []
+                if ds and ds[0][0] == "stmt" and ds[0][3][0] == "disc" and f.locals[ds[0][3][1][0]].startswith("std::option::Option<"):
+                    some = [x[1] for x in t[3] if x[0] == 1]
+                    start = some[0] if some else None
+                    break
+            st += [s for s in f.succ(b, unwind=False)]
+        if start is None:
+            continue
+        n += 1
+        esc = success_escapes(f, [start], [p.bb for p in pushes], ())
+        ctx.ob("M1.MIGRATE-EVERY-ROW", "migrate_table_drop_column#%d" % (n - 1), not esc and bool(pushes),
+               "every row found is re-encoded and queued for write-back" if not esc and pushes else
+               "a row that was found can be skipped without being rewritten (%s): it keeps the old layout and is decoded under the new schema"
+               % (describe_path(f, esc[0]) if esc else "no write-back queue"), sc.loc())
+    ctx.floor("M1.row_lookups", n, 1)
